@@ -115,11 +115,15 @@ def run(ck):
     for m in methods:
         for n in ast.walk(m.node):
             if isinstance(n, ast.AugAssign) and isinstance(n.op, ast.Add) and isinstance(n.target, ast.Attribute) \
-                    and "score" in ast.unparse(n.value) and pos_attr in ast.unparse(n.value):
+                    and isinstance(n.target.value, ast.Name) and n.target.value.id == m.self_name \
+                    and any(isinstance(x, ast.Attribute) and x.attr == "score" for x in ast.walk(n.value)):
                 ext_attr = mangle(n.target.attr, builder.name)
-                idx = [x for x in ast.walk(n.value) if isinstance(x, ast.Subscript)]
-                if idx and isinstance(idx[0].slice, ast.Attribute):
-                    end_attr = mangle(idx[0].slice.attr, builder.name)
+                # the cursor: self.<positions>[self.<cursor>] somewhere in the same method (the element may be held in a local)
+                for x in ast.walk(m.node):
+                    if isinstance(x, ast.Subscript) and isinstance(x.value, ast.Attribute) and x.value.attr == pos_attr \
+                            and isinstance(x.slice, ast.Attribute) and isinstance(x.slice.value, ast.Name) \
+                            and x.slice.value.id == m.self_name:
+                        end_attr = mangle(x.slice.attr, builder.name)
             if isinstance(n, ast.Assign) and isinstance(n.targets[0], ast.Attribute) and "create" in ast.unparse(n.value) \
                     and isinstance(n.targets[0].value, ast.Name):
                 seg_attr = mangle(n.targets[0].attr, builder.name)
@@ -224,17 +228,28 @@ def run(ck):
     # ---- C13.4 fallback / final emission, C13.5 scan bounds
     mpaths = explore(ck, main, track_heap=False, unroll=(0, 1))
     emit_fn = found["emit"][0][1]
-    for pa in mpaths:
-        if pa.outcome != "return":
-            continue
+    def is_empty_list(x):
+        return x[0] == "list" and len(x[1]) == 1 and x[1][0][0] == "new" and x[1][0][1].endswith("EmptyAlignmentSegment")
+    ret_paths = [pa for pa in mpaths if pa.outcome == "return"]
+    combined = plain_results = plain_empty = None
+    for pa in ret_paths:
         v = pa.value
+        if (v[0] == "orelse" and len(v[1]) == 2 and v[1][0][0] == "attr" and is_empty_list(v[1][1])) or \
+                (v[0] == "select" and v[2][0] == "attr" and is_empty_list(v[3]) and T.as_bool(v[1]) in (v[2], T.as_bool(v[2]))):
+            combined = pa
+        elif v[0] == "attr" and pa.facts.get(v) is True:
+            plain_results = pa                     # `if results: return results`
+        elif is_empty_list(v) and any(tv is False and k[0] == "attr" for k, tv in pa.facts.items()):
+            plain_empty = pa                       # `return [EmptyAlignmentSegment(...)]` when there are none
+    first = ret_paths[0] if ret_paths else None
+    if first is None:
+        raise AnalysisError(f"{main.where}: the builder's main method has no return path")
+    ok_fallback = combined is not None or (plain_results is not None and plain_empty is not None)
+    ck.judge(ok_fallback, "C13.4", f"{builder.name}:fallback", where(main, first.node),
+             "returns the collected segments, or one empty segment if there are none",
+             found="; ".join(T.show(pa.value)[:80] for pa in ret_paths[:4]), required="results or [EmptyAlignmentSegment(...)]")
+    for pa in ret_paths:
         w = where(main, pa.node)
-        ok = v[0] == "orelse" and len(v[1]) == 2 and v[1][0][0] == "attr" and v[1][1][0] == "list" and len(v[1][1][1]) == 1 \
-            and v[1][1][1][0][0] == "new" and v[1][1][1][0][1].endswith("EmptyAlignmentSegment")
-        if not ok and v[0] == "select":
-            ok = v[2][0] == "attr" and v[3][0] == "list" and len(v[3][1]) == 1 and v[3][1][0][0] == "new"
-        ck.judge(ok, "C13.4", f"{builder.name}:fallback", w, "returns the collected segments, or one empty segment if there are none",
-                 found=T.show(v)[:160], required="results or [EmptyAlignmentSegment(...)]")
         after = False
         seen_exit = False
         for e in pa.events:
@@ -254,6 +269,8 @@ def run(ck):
         if conds_l:
             c = T.as_bool(conds_l[0].term)
             want = T.mk_le(END, T.p_sub(T.mk_call("len", [P]), C(1)))
+            if c == T.mk_lt(END, T.mk_call("len", [P])):
+                c = want             # cursor and length are integers: i < n  <=>  i <= n - 1
             ck.judge(c == want, "C13.5", f"{builder.name}:scan-bound", where(main, conds_l[0].node),
                      "the scan runs while the cursor is <= len(positions) - 1 (the last position is examined)",
                      found=T.show(c), required=T.show(want))
@@ -281,7 +298,8 @@ def _break_reset(ck, builder, methods, start_attr, END, EXT):
     _reset_done.add(key)
     found = False
     for m in methods:
-        for pa in explore(ck, m, track_heap=False, unroll=(0,)):
+        has_loop = any(isinstance(x, (ast.For, ast.While)) for x in ast.walk(m.node))
+        for pa in explore(ck, m, track_heap=not has_loop, unroll=(0,)):
             sets = {}
             for e in pa.events:
                 if e.kind == "setattr":
